@@ -5,7 +5,7 @@ use vcore::drive::{enum_strings, prop_par, Verdict};
 use vcore::rt::{self, digest_str, Acc, Args, Report};
 use vcore::sgr::{self, MColor, MStyle};
 
-const RULE: &str = "Inputs: exhaustively all 1- and 2-word (thorough: 3-word) descriptions over a 60-word vocabulary (names, normal, -1, attributes with no/no- prefixes, numbers, hex colours, near misses) and all '#'+3 and '#'+6 strings over {0 9 a f A F g G + - space e-acute}; grammar-generated descriptions of 0..6 words, and long ones of 15..1027 words around powers of two, in random order with random ASCII case and ASCII/Unicode white space; single-edit mutations of valid descriptions (insert/delete/replace, incl. multi-byte characters inside hex words); arbitrary Unicode. Oracle: a reference parser written from the syntax in the property (Result<style, (error kind, word)>), and parse(print(style)) == style for every expressible style. Excluded (undetermined by the statement, counted): decimal numbers with an explicit '+'. Non-trivial = at least 2 words, or a '#' word, or an input the reference rejects (distinct by input string).";
+const RULE: &str = "Inputs: exhaustively all 1- and 2-word (thorough: 3-word) descriptions over a 60-word vocabulary (names, normal, -1, attributes with no/no- prefixes, numbers, hex colours, near misses) and all '#'+3 and '#'+6 strings over {0 9 a f A F g G + - space e-acute}; grammar-generated descriptions of 0..6 words, and long ones of 15..1027 words around powers of two, in random order with random ASCII case and ASCII/Unicode white space; words glued together from 2..4 valid pieces (stacked negation prefixes, doubled attributes); single-edit mutations of valid descriptions (insert/delete/replace, incl. multi-byte characters inside hex words); arbitrary Unicode. Oracle: a reference parser written from the syntax in the property (Result<style, (error kind, word)>), and parse(print(style)) == style for every expressible style. Excluded (undetermined by the statement, counted): decimal numbers with an explicit '+'. Non-trivial = at least 2 words, or a '#' word, or an input the reference rejects (distinct by input string).";
 
 #[derive(Debug, PartialEq, Eq, Clone)]
 enum RefErr {
@@ -192,7 +192,7 @@ fn vocabulary() -> Vec<String> {
         v.push(format!("no-{a}"));
     }
     for w in [
-        "0", "7", "8", "15", "16", "255", "256", "007", "0255", "999", "-0", "-2", "0x10", "1.0", "#000", "#fff", "#1a2b3c", "#ABCDEF", "#ffff", "#12345", "#ggg", "#", "Bold", "RED", "no", "no-", "nored", "no-normal", "brightred", "default", "reset", "bold,", "ul;", "é", "257", "65543", "4294967303", "18446744073709551623",
+        "0", "7", "8", "15", "16", "255", "256", "007", "0255", "999", "-0", "-2", "0x10", "1.0", "#000", "#fff", "#1a2b3c", "#ABCDEF", "#ffff", "#12345", "#ggg", "#", "Bold", "RED", "no", "no-", "nored", "no-normal", "brightred", "default", "reset", "bold,", "ul;", "é", "257", "65543", "4294967303", "18446744073709551623", "nonobold", "no-no-ul", "no-nodim", "nono-italic", "boldbold", "redbold", "no-red", "nonormal", "no--bold", "no-7",
     ] {
         v.push(w.to_string());
     }
@@ -268,6 +268,22 @@ fn arb_long() -> BoxedStrategy<String> {
             words.push(last);
             words.join(sep)
         })
+        .boxed()
+}
+
+/// words glued together from valid pieces without white space: stacked negation prefixes
+/// (`nonobold`, `no-no-ul`), doubled attributes, a prefix in front of a colour, two valid words
+fn arb_compound() -> BoxedStrategy<String> {
+    let piece = || {
+        prop_oneof![
+            4 => prop::sample::select(vec!["no", "no-", "No", "NO-"]).prop_map(|s| s.to_owned()),
+            4 => prop::sample::select(ATTRS.iter().map(|a| a.0).collect::<Vec<_>>()).prop_map(|s| s.to_owned()),
+            2 => prop::sample::select(NAMES.to_vec()).prop_map(|s| s.to_owned()),
+            1 => prop::sample::select(vec!["normal", "-1", "7", "#fff", "-"]).prop_map(|s| s.to_owned()),
+        ]
+    };
+    (proptest::collection::vec(piece(), 2..=4), any::<u64>(), prop::sample::select(vec!["", "red ", "bold ", "red blue "]), prop::sample::select(vec!["", " ul", " 7"]))
+        .prop_map(|(pieces, mask, before, after)| format!("{before}{}{after}", random_case(&pieces.concat(), mask)))
         .boxed()
 }
 
@@ -397,6 +413,8 @@ fn run(args: &Args, rep: &mut Report) {
         prop_par("valid-descriptions", args.seed, tier.pick(60_000, 10_000_000), arb_description, sbody, |s| json!(s)));
     rep.add("long-descriptions", false, "15..1027 words (lengths around powers of two): attribute words with up to two colours anywhere and a deciding last word (attribute, negation, colour, unknown word)",
         prop_par("long-descriptions", args.seed, tier.pick(8_000, 400_000), arb_long, sbody, |s| json!(s)));
+    rep.add("compound-words", false, "2..4 valid pieces (negation prefixes, attributes, colour names, numbers) glued together without white space, alone and next to valid words",
+        prop_par("compound-words", args.seed, tier.pick(40_000, 2_000_000), arb_compound, sbody, |s| json!(s)));
     rep.add("single-edit-mutations", false, "one insert/delete/replace at a character boundary of a valid description",
         prop_par("single-edit-mutations", args.seed, tier.pick(100_000, 8_000_000), arb_mutated, sbody, |s| json!(s)));
     rep.add("unicode-lookalikes", false, "keywords with U+212A / U+017F / U+0131 in place of k / s / i",
